@@ -46,6 +46,23 @@ def gen(rng, tier):
             mal = 'absent'
         yield {'trajs': trajs, 'lag': lag, 'S': S, 'F': F, 'steps': rng.choice([1, 2, 5, 20, 100, 500, 2000]),
                'seed': rng.randrange(2**31), 'npseed': rng.randrange(2**31), 'alpha': akind, 'mal': mal}
+    for case in gen_long(rng, tier):
+        yield case
+
+
+def gen_long(rng, tier):
+    for _ in range(1 if tier == 'quick' else 6):       # transitions with probability below 1e-5
+        labs, akind = G.alphabet(rng, k=rng.randint(2, 4))
+        rle = G.rare_rle(rng, labs)
+        yield {'trajs': None, 'rle': rle, 'lag': 1, 'S': [labs[0]], 'F': [labs[1]], 'steps': 2000,
+               'seed': rng.randrange(2**31), 'npseed': rng.randrange(2**31), 'alpha': akind, 'mal': None, 'long': 'rare'}
+    for _ in range(2 if tier == 'quick' else 4):
+        # a lag time of 1e6 frames and a transition of probability 1e-4: durations x lag exceed 2^31
+        a, b = rng.sample([0, 1, 2, 5], 2)
+        L = 10**6
+        rle = [[[a, L + 50], [b, 300], [a, L + 50]]]
+        yield {'trajs': None, 'rle': rle, 'lag': L, 'S': [a], 'F': [b], 'steps': 10000,
+               'seed': rng.randrange(2**31), 'npseed': rng.randrange(2**31), 'alpha': 'huge-lag', 'mal': None, 'long': 'huge-lag'}
 
 
 def corpus():
@@ -67,7 +84,7 @@ def impl(case):
     from props import c07
     nojit = bool(numba.config.DISABLE_JIT)
     seed, record = c07._rec
-    trajs = [np.array(t) for t in case['trajs']]
+    trajs = [np.array(t) for t in G.expand(case)]
     st = mh.StateTraj(trajs)
     states = [int(s) for s in st.states]
     cm, perm = ts._get_cummat(trajs, case['lag'])
@@ -123,7 +140,9 @@ def impl(case):
 
 
 def requests(case):
-    return []
+    if case.get('long') == 'huge-lag' or case['mal']:
+        return []
+    return [[703] + C.enested(G.expand(case)) + [case['lag']]]
 
 
 def judge(case, ibc, answers):
@@ -142,6 +161,15 @@ def judge(case, ibc, answers):
         states = r['states']
         n = len(states)
         cm = [[Fraction(float.fromhex(x)) for x in row] for row in r['cm']]
+        if answers:
+            # the sampling table itself: every observed transition keeps an interval of length T_ij
+            from props import c07
+            rd0 = C.Reader(answers[0])
+            m = rd0.res(lambda: (rd0.Qmat(), rd0.Zs(), rd0.res(lambda: c07._cm(rd0))))
+            if m[0] == 'ok' and m[1][1] == states:
+                c07.check_cummat(cm, r['perm'], m[1][0], states, P)
+            else:
+                P('impl-vs-spec', 'state list %s but the model answers %s' % (states, C.short(m, 80)))
         us = [Fraction(float.fromhex(u)) for u in r['us']]
         S = sorted({states.index(s) for s in case['S']})
         F = sorted({states.index(s) for s in case['F']})
@@ -174,8 +202,13 @@ def judge(case, ibc, answers):
             if isinstance(h, dict) and 'err' in h:
                 P('impl-vs-spec', '%s histogram raised %s' % (name, h['err']))
                 continue
-            ans = C.Reader(C.mrun([[802, len(d)] + [x for kc in d for x in kc] + [lag]])[0])
+            # the model counts in unary naturals: for the 1e6-frame lag the histogram is evaluated
+            # at lag 1 and rescaled here (edges x lag, density / lag; cf. edges_multiples, bin_k_fraction)
+            mlag = 1 if lag > 1000 else lag
+            ans = C.Reader(C.mrun([[802, len(d)] + [x for kc in d for x in kc] + [mlag]])[0])
             pts, dens, edges = ans.Zs(), ans.Qs(), ans.Zs()
+            if mlag != lag:
+                dens, edges = [x / lag for x in dens], [e * lag for e in edges]
             if h['edges'] != edges:
                 P('impl-vs-spec', '%s edges %s, expected consecutive multiples of the lag %s' % (name, h['edges'][:6], edges[:6]))
             elif len(h['dens']) != len(dens) or any(not C.frac_close(float.fromhex(a), b, Fraction(1, 10**12)) for a, b in zip(h['dens'], dens)):
@@ -190,7 +223,10 @@ def nontrivial(case, ibc):
     r = next(iter(ibc.values()))
     if case['mal'] or not isinstance(r.get('wt_list'), list):
         return False
-    outside = any(v not in case['S'] and v not in case['F'] for t in case['trajs'] for v in t)
+    if case.get('rle'):
+        outside = any(a not in case['S'] and a not in case['F'] for t in case['rle'] for a, _ in t)
+    else:
+        outside = any(v not in case['S'] and v not in case['F'] for t in case['trajs'] for v in t)
     return len(r['wt_list']) >= 1 and outside
 
 
